@@ -1,3 +1,6 @@
+// replay for property C03, harness c03_size_gate_raw_dst (/verif/harness/sciparse/c03_codec.rs)
+// failed checks reported by CBMC:
+//   "address type id that does not fit its 2-bit field accepted" @ ../harness/sciparse/c03_codec.rs:142:17 in function proto::packet::model::verif_c03::size_gate
 //! verif-attach: file=crates/libs/sciparse/src/proto/packet/model.rs crate=sciparse mod=verif_c03
 //!
 //! C03 — wire codec: announced size = written size, truthful length fields, models that do not
@@ -543,3 +546,324 @@ fn header_len_gate() {
 fn c03_header_len_gate() {
     header_len_gate()
 }
+
+#[cfg(test)]
+mod verif_playback {
+    use super::*;
+/// Test generated for harness `proto::packet::model::verif_c03::c03_size_gate_raw_dst` 
+///
+/// Check for `assertion`: ""address type id that does not fit its 2-bit field accepted""
+
+#[test]
+fn kani_concrete_playback_c03_size_gate_raw_dst_5706988018726854476() {
+    let concrete_vals: Vec<Vec<u8>> = vec![
+        // 0ul
+        vec![0, 0, 0, 0, 0, 0, 0, 0],
+        // 3
+        vec![3],
+        // 0
+        vec![0],
+        // 1
+        vec![1],
+        // 255
+        vec![255],
+        // 255
+        vec![255],
+        // 1048575
+        vec![255, 255, 15, 0],
+        // 18446744073709551615ul
+        vec![255, 255, 255, 255, 255, 255, 255, 255],
+        // 18446744073709551615ul
+        vec![255, 255, 255, 255, 255, 255, 255, 255],
+        // 255
+        vec![255],
+        // 255
+        vec![255],
+        // 255
+        vec![255],
+        // 255
+        vec![255],
+        // 255
+        vec![255],
+        // 255
+        vec![255],
+        // 255
+        vec![255],
+        // 255
+        vec![255],
+        // 255
+        vec![255],
+        // 255
+        vec![255],
+        // 255
+        vec![255],
+        // 255
+        vec![255],
+        // 255
+        vec![255],
+        // 255
+        vec![255],
+        // 255
+        vec![255],
+        // 255
+        vec![255],
+        // 255
+        vec![255],
+        // 255
+        vec![255],
+        // 0
+        vec![0],
+        // 0
+        vec![0],
+        // 255
+        vec![255],
+        // 255
+        vec![255],
+        // 65535
+        vec![255, 255],
+        // 4294967295
+        vec![255, 255, 255, 255],
+        // 255
+        vec![255],
+        // 255
+        vec![255],
+        // 65535
+        vec![255, 255],
+        // 65535
+        vec![255, 255],
+        // 255
+        vec![255],
+        // 255
+        vec![255],
+        // 255
+        vec![255],
+        // 255
+        vec![255],
+        // 255
+        vec![255],
+        // 255
+        vec![255],
+        // 255
+        vec![255],
+        // 255
+        vec![255],
+        // 65532
+        vec![252, 255],
+        // 65535
+        vec![255, 255],
+        // 255
+        vec![255],
+        // 255
+        vec![255],
+        // 255
+        vec![255],
+        // 255
+        vec![255],
+        // 255
+        vec![255],
+        // 255
+        vec![255],
+    ];
+    let mut concrete_vals = concrete_vals;
+    concrete_vals.extend(std::iter::repeat(vec![0u8]).take(8192));
+    kani::concrete_playback_run(concrete_vals, c03_size_gate_raw_dst);
+}
+
+/// Test generated for harness `proto::packet::model::verif_c03::c03_size_gate_raw_dst` 
+///
+/// Check for `cover`: "oversize payload rejected"
+
+#[test]
+fn kani_concrete_playback_c03_size_gate_raw_dst_1208128682089674885() {
+    let concrete_vals: Vec<Vec<u8>> = vec![
+        // 131071ul
+        vec![255, 255, 1, 0, 0, 0, 0, 0],
+        // 3
+        vec![3],
+        // 0
+        vec![0],
+        // 1
+        vec![1],
+        // 255
+        vec![255],
+        // 255
+        vec![255],
+        // 4294967295
+        vec![255, 255, 255, 255],
+        // 18446744073709551615ul
+        vec![255, 255, 255, 255, 255, 255, 255, 255],
+        // 18446744073709551615ul
+        vec![255, 255, 255, 255, 255, 255, 255, 255],
+        // 255
+        vec![255],
+        // 255
+        vec![255],
+        // 255
+        vec![255],
+        // 255
+        vec![255],
+        // 255
+        vec![255],
+        // 255
+        vec![255],
+        // 255
+        vec![255],
+        // 255
+        vec![255],
+        // 255
+        vec![255],
+        // 255
+        vec![255],
+        // 255
+        vec![255],
+        // 255
+        vec![255],
+        // 255
+        vec![255],
+        // 255
+        vec![255],
+        // 255
+        vec![255],
+        // 255
+        vec![255],
+        // 255
+        vec![255],
+        // 255
+        vec![255],
+        // 0
+        vec![0],
+        // 0
+        vec![0],
+        // 255
+        vec![255],
+        // 255
+        vec![255],
+        // 65535
+        vec![255, 255],
+        // 4294967295
+        vec![255, 255, 255, 255],
+        // 255
+        vec![255],
+        // 255
+        vec![255],
+        // 65535
+        vec![255, 255],
+        // 65535
+        vec![255, 255],
+        // 255
+        vec![255],
+        // 255
+        vec![255],
+        // 255
+        vec![255],
+        // 255
+        vec![255],
+        // 255
+        vec![255],
+        // 255
+        vec![255],
+        // 255
+        vec![255],
+        // 255
+        vec![255],
+        // 65532
+        vec![252, 255],
+        // 65535
+        vec![255, 255],
+        // 255
+        vec![255],
+        // 255
+        vec![255],
+        // 255
+        vec![255],
+        // 255
+        vec![255],
+        // 255
+        vec![255],
+        // 255
+        vec![255],
+    ];
+    let mut concrete_vals = concrete_vals;
+    concrete_vals.extend(std::iter::repeat(vec![0u8]).take(8192));
+    kani::concrete_playback_run(concrete_vals, c03_size_gate_raw_dst);
+}
+
+/// Test generated for harness `proto::packet::model::verif_c03::c03_size_gate_raw_dst` 
+///
+/// Check for `cover`: "largest payload accepted"
+
+#[test]
+fn kani_concrete_playback_c03_size_gate_raw_dst_7654986997078582751() {
+    let concrete_vals: Vec<Vec<u8>> = vec![
+        // 65535ul
+        vec![255, 255, 0, 0, 0, 0, 0, 0],
+        // 6
+        vec![6],
+        // 0
+        vec![0],
+        // 0
+        vec![0],
+        // 255
+        vec![255],
+        // 255
+        vec![255],
+        // 1048575
+        vec![255, 255, 15, 0],
+        // 18446744073709551615ul
+        vec![255, 255, 255, 255, 255, 255, 255, 255],
+        // 18446744073709551615ul
+        vec![255, 255, 255, 255, 255, 255, 255, 255],
+        // 255
+        vec![255],
+        // 255
+        vec![255],
+        // 255
+        vec![255],
+        // 255
+        vec![255],
+        // 255
+        vec![255],
+        // 255
+        vec![255],
+        // 255
+        vec![255],
+        // 255
+        vec![255],
+        // 255
+        vec![255],
+        // 255
+        vec![255],
+        // 255
+        vec![255],
+        // 255
+        vec![255],
+        // 255
+        vec![255],
+        // 255
+        vec![255],
+        // 255
+        vec![255],
+        // 255
+        vec![255],
+        // 255
+        vec![255],
+        // 255
+        vec![255],
+        // 0
+        vec![0],
+        // 0
+        vec![0],
+        // 255
+        vec![255],
+    ];
+    let mut concrete_vals = concrete_vals;
+    concrete_vals.extend(std::iter::repeat(vec![0u8]).take(8192));
+    kani::concrete_playback_run(concrete_vals, c03_size_gate_raw_dst);
+}
+}
+
+// native replay (full trace; cargo kani playback, dev profile, real code):
+//   kani_concrete_playback_c03_size_gate_raw_dst_5706988018726854476: reproduced (address type id that does not fit its 2-bit field accepted)
+//   kani_concrete_playback_c03_size_gate_raw_dst_1208128682089674885: did not reproduce (cover:oversize payload rejected)
+//   kani_concrete_playback_c03_size_gate_raw_dst_7654986997078582751: reproduced (cover:largest payload accepted)
+// re-run: bin/check C03 --replay /verif/replays/C03/c03_size_gate_raw_dst.rs
